@@ -363,6 +363,37 @@ def _built_classes(repo, fi, lit: str) -> set:
                 isinstance(st.value, ast.Name) and st.value.id.endswith("FilterNode") and \
                 any(l == lit and h for _, l, h in _eq_literal_facts(st.node, fi.node)):
             built.add(st.value.id)
+    # `for tok, cls in TABLE: if <x> == tok: ... cls(...)` over a constant table of (token, class) pairs / a dict's items()
+    for l in walk(fi.node):
+        if not (isinstance(l, ast.For) and isinstance(l.target, ast.Tuple) and len(l.target.elts) == 2 and
+                all(isinstance(t, ast.Name) for t in l.target.elts)):
+            continue
+        kname, cname = l.target.elts[0].id, l.target.elts[1].id
+        it = l.iter
+        if isinstance(it, ast.Call) and isinstance(it.func, ast.Attribute) and it.func.attr == "items" and not it.args:
+            it = it.func.value
+        tab = _table_dict(repo, fi, it)
+        rows = []
+        if tab is not None:
+            rows = list(zip(tab.keys, tab.values))
+        else:
+            v = it if isinstance(it, (ast.Tuple, ast.List)) else None
+            if isinstance(it, ast.Name):
+                v = repo.module_assign(fi.module, it.id) or (repo.class_attr(fi.cls, it.id) if fi.cls is not None else None)
+            elif isinstance(it, ast.Attribute) and isinstance(it.value, ast.Name) and it.value.id in ("self", "cls") and fi.cls is not None:
+                v = repo.class_attr(fi.cls, it.attr)
+            if isinstance(v, (ast.Tuple, ast.List)):
+                rows = [(e.elts[0], e.elts[1]) for e in v.elts if isinstance(e, (ast.Tuple, ast.List)) and len(e.elts) == 2]
+        if not rows:
+            continue
+        selected = any(isinstance(c.func, ast.Name) and c.func.id == cname and
+                       any(isinstance(e, ast.Compare) and len(e.ops) == 1 and isinstance(e.ops[0], ast.Eq) and pol and
+                           kname in {ap(e.left), ap(e.comparators[0])} for e, pol in facts(c, fi.node))
+                       for c in calls(l))
+        if selected:
+            for k, v in rows:
+                if isinstance(k, ast.Constant) and k.value == lit:
+                    built.add(ap(v) or norm(v))
     return built
 
 
@@ -515,6 +546,9 @@ def _run(ev, stmts, env, depth=0):
     return Outcome("fallthrough")
 
 
+_REC_CLASS = object()     # the MatchResult class itself, as a value (`cls` in its classmethods)
+
+
 class _FilterEval(ConstEval):
     """ConstEval + (a) construction / attribute access / truthiness of MatchResult,
     (b) `<child>.match(...)` answered from an enumerated table, (c) bool()/len()/list()."""
@@ -533,7 +567,7 @@ class _FilterEval(ConstEval):
         self.self_cls = None      # class whose method is being evaluated (for self.<helper>() inlining)
         self._inline_depth = 0
 
-    def _inline(self, fn_info, call: ast.Call, local, skip_self: bool):
+    def _inline(self, fn_info, call: ast.Call, local, skip_self: bool, first=None):
         """Evaluate a call of a repo function by running its body on the evaluated arguments."""
         if self._inline_depth > 6:
             raise AnalysisError(f"interpreter: inlining too deep at `{src(call)}`")
@@ -544,6 +578,8 @@ class _FilterEval(ConstEval):
         if a.vararg or a.kwarg or a.kwonlyargs:
             raise AnalysisError(f"interpreter: unsupported signature of {fn_info.qual}")
         env = {"self": Sym("self")} if skip_self else {}
+        if skip_self and first is not None and a.args:
+            env[a.args[0].arg] = first
         defaults = dict(zip(reversed(params), reversed(a.defaults)))
         for p_, d_ in defaults.items():
             env[p_] = self.ev(d_, {})
@@ -592,7 +628,16 @@ class _FilterEval(ConstEval):
                 if recv in self.children:
                     self.called.append(recv)
                     return self.children[recv]
+            # MatchResult.<classmethod>(...) / cls(...) inside such a classmethod
+            if isinstance(f, ast.Attribute) and isinstance(f.value, ast.Name) and \
+                    (f.value.id == self.rec_cls.name or local.get(f.value.id) is _REC_CLASS):
+                m = self.repo.lookup_method(self.rec_cls, f.attr)
+                if m is not None:
+                    static = any((ap(d) or "").split(".")[-1] == "staticmethod" for d in m.node.decorator_list)
+                    return self._inline(m, n, local, skip_self=not static, first=_REC_CLASS)
             name = (ap(f) or "").split(".")[-1]
+            if isinstance(f, ast.Name) and local.get(f.id) is _REC_CLASS:
+                name = self.rec_cls.name
             if name == self.rec_cls.name:
                 vals = {}
                 for k, a in zip(self.rec_fields, n.args):
@@ -1324,7 +1369,9 @@ VIEW_OWNERS = {
 
 
 def _is_filter_match(e, arg_name: Optional[str]) -> bool:
-    """`self.filter.match(<arg_name>)`"""
+    """`self.filter.match(<arg_name>)`, possibly wrapped in bool()"""
+    if isinstance(e, ast.Call) and ap(e.func) == "bool" and len(e.args) == 1 and not e.keywords:
+        return _is_filter_match(e.args[0], arg_name)
     return isinstance(e, ast.Call) and ap(e.func) == "self.filter.match" and e.args and \
         (arg_name is None or (isinstance(e.args[0], ast.Name) and e.args[0].id == arg_name))
 
@@ -1433,11 +1480,17 @@ def r5(ctx):
         where = ctx.w(sf, s.node)
         comp = None
         if s.kind == "assign":
-            comp = _comp_of(s.value)
-            if comp is None and isinstance(s.value, (ast.List,)) and not s.value.elts:
+            val_ = s.value
+            if isinstance(val_, ast.Name):
+                # a local bound once to the comprehension that builds the new view
+                cands_ = [x.value for x in stores(sf.node) if x.path == val_.id and x.kind == "assign" and x.value is not None]
+                if len(cands_) == 1:
+                    val_ = cands_[0]
+            comp = _comp_of(val_)
+            if comp is None and isinstance(val_, (ast.List,)) and not val_.elts:
                 continue  # reset to empty
-            if comp is None and isinstance(s.value, ast.Call) and ap(s.value.func) == "list" and len(s.value.args) == 1:
-                comp = _comp_of(s.value.args[0])
+            if comp is None and isinstance(val_, ast.Call) and ap(val_.func) == "list" and len(val_.args) == 1:
+                comp = _comp_of(val_.args[0])
         elif s.kind == "mutcall" and s.method == "extend" and len(s.node.args) == 1:
             comp = _comp_of(s.node.args[0])
         elif s.kind == "mutcall" and s.method == "clear":
@@ -1587,6 +1640,17 @@ def _table_loop_keys(repo, fi, dict_name: str) -> Tuple[Optional[str], set]:
     return None, set()
 
 
+def _table_call_keys(repo, fi, dict_name: str) -> Tuple[Optional[str], set]:
+    """`helper(<dict_name>, <constant table of strings>, ...)` -> (call text, keys)."""
+    for c in calls(fi.node):
+        if any(isinstance(a, ast.Name) and a.id == dict_name for a in c.args):
+            for a in c.args:
+                tab = _const_str_table(repo, fi, a) if isinstance(a, (ast.Name, ast.Attribute, ast.Tuple, ast.List)) else None
+                if tab:
+                    return norm(c), tab
+    return None, set()
+
+
 def _root_attr(e, recv: str) -> Optional[str]:
     """First attribute read off `recv` inside expression e (self.direction.name -> direction)."""
     found = []
@@ -1672,6 +1736,10 @@ def r6(ctx):
         dn, dset = _table_loop_keys(repo, td, "meta")
     if hn is None:
         hn, hset = _table_loop_keys(repo, adp, "meta")
+    if dn is None:
+        dn, dset = _table_call_keys(repo, td, "meta")
+    if hn is None:
+        hn, hset = _table_call_keys(repo, adp, "meta")
     if dn is None and hn is None:
         ctx.note("C18.R6: meta UUID (de)hydration helpers not found; meta key agreement not compared")
     else:
@@ -2530,6 +2598,33 @@ def r12(ctx):
                f"{LLSD}:1")
 
 
+def r15(ctx):
+    repo = ctx.repo
+    ctx.rule("C18.R15", "Meta.<name> lookups that an entry class does not answer itself fall through to the base class "
+                        "with the selector's own name (the base keys are case-sensitive)")
+    base = repo.cls("AbstractMessageLogEntry", LOGR)
+    n = 0
+    for ci in [base] + repo.subclasses(base, strict=True):
+        m = ci.methods.get("_get_meta")
+        if m is None:
+            continue
+        params = [a.arg for a in m.node.args.args]
+        if len(params) < 2:
+            continue
+        name_p = params[1]
+        for c in calls(m.node):
+            if ap(c.func) == "super()._get_meta" and c.args:
+                n += 1
+                a = c.args[0]
+                rebound = [norm(st.node) for st in stores(m.node, into_defs=False) if st.path == name_p and st.kind in ("assign", "augassign")]
+                ok = isinstance(a, ast.Name) and a.id == name_p and not rebound
+                ctx.ob("C18.R15", f"{ci.name}._get_meta hands the base class the name it was asked for", ok, ctx.w(m, c),
+                       f"`{norm(c)}` after {rebound or 'a different argument'}: AbstractMessageLogEntry._get_meta compares "
+                       f"case-sensitively (`self.meta.get(name)`, 'CurrentSelectedLocal'), so Meta.RegionName / Meta.AgentID ... "
+                       f"stop matching for this kind of entry")
+    ctx.floor("C18.R15", "_get_meta overrides falling through to super()", n, 2)
+
+
 def run(ctx):
     rules = grammar_rules(ctx)
     ctx.floor("C18", "grammar rules reachable from the start rule", len(rules), 10)
@@ -2547,6 +2642,7 @@ def run(ctx):
     r12(ctx)
     r13(ctx)
     r14(ctx)
+    r15(ctx)
     ctx.assume("arpeggio semantics: python list = ordered choice committing to the first matching alternative, "
                "string alternatives match by prefix; regex alternatives are not compared")
     ctx.assume("child filter nodes return MatchResult(False, []) | MatchResult(True, fields) (fields possibly empty)")
